@@ -244,12 +244,19 @@ func (l *layout) build() {
 
 func allLayouts(thorough bool) []*layout {
 	sizes := []int{0, 1, 2, 3, 5, 8, 13}
+	maxLimit := 4
+	rules := [][2]int{{2, 1}, {3, 1}, {2, 2}}
+	if thorough {
+		sizes = append(sizes, 21)
+		maxLimit = 5
+		rules = append(rules, [2]int{3, 2}, [2]int{1, 1})
+	}
 	var ls []*layout
 	for _, n := range sizes {
 		ls = append(ls, &layout{Kind: "whole", Size: n})
 	}
 	for _, n := range sizes {
-		for limit := 1; limit <= 4; limit++ {
+		for limit := 1; limit <= maxLimit; limit++ {
 			if n <= limit {
 				continue
 			}
@@ -260,7 +267,6 @@ func allLayouts(thorough bool) []*layout {
 			}
 		}
 	}
-	rules := [][2]int{{2, 1}, {3, 1}, {2, 2}}
 	for _, r := range rules {
 		for _, n := range sizes {
 			enumx.Subsets(r[0]+r[1], func(m uint64) bool {
